@@ -41,9 +41,14 @@ def main():
         out["checks"] = {p: rc for p, (rc, _) in res.items()}
         out["findings"] = [l.strip()[:260] for p, (rc, o) in res.items() for l in o.splitlines()
                            if l.startswith(("  finding", "ANALYSIS-ERROR"))][:8]
-        confirmed = out["demo_clean"][0] == 0 and out["demo_patched"][0] != 0 and out["tests_patched"][0] == 0
+        refactor = "--refactor" in sys.argv
+        if refactor:
+            confirmed = out["demo_clean"][0] == 0 and out["demo_patched"][0] == 0 and out["tests_patched"][0] == 0
+        else:
+            confirmed = out["demo_clean"][0] == 0 and out["demo_patched"][0] != 0 and out["tests_patched"][0] == 0
         out["confirmed"] = confirmed
         out["detected_by"] = [p for p, rc in out["checks"].items() if rc == 1]
+        out["not_silent"] = [p for p, rc in out["checks"].items() if rc != 0]
         print(json.dumps(out, indent=1))
         if keep and confirmed:
             dst = os.path.join("/verif/seeded", keep)
@@ -57,8 +62,10 @@ def main():
                     meta = json.load(open(mp))
                 except Exception:
                     meta = {"raw": open(mp).read()[:500]}
+            if refactor:
+                meta.update({"kind": "refactor", "expected": "silent", "about_property": prop})
             meta.update({"breaks_property": prop, "origin": "independent sub-agent given only the property text",
-                         "confirmed": {"demo_on_unchanged_tree": "PASS (exit 0)", "demo_with_patch": f"FAIL (exit {out['demo_patched'][0]})",
+                         "confirmed": {"demo_on_unchanged_tree": "PASS (exit 0)", "demo_with_patch": ("PASS (exit 0)" if refactor else f"FAIL (exit {out['demo_patched'][0]})"),
                                        "tests_with_patch": out["tests_patched"][1]},
                          "what_i_ran": "tools/seed_eval.py: scratch copies under $TMPDIR; patch -p1; demo.py with PYTHONPATH=<copy>; pytest tests; /venv/bin/python -m sa <prop> with VERIF_REPO=<copy>",
                          "check_exit_codes": out["checks"], "detected_by": out["detected_by"], "findings": out["findings"][:4]})
